@@ -4,12 +4,14 @@
 \* evaluating the history without the pruned change. Documents the open finding of C06.
 CONSTANTS
   Atomic = TRUE
+  SingleInPlace = FALSE
   DropDetached = TRUE
   Namespace = {1}
   M = 2
   MaxTs = 1
   Classes = {"ok", "soft", "badSig"}
   MaxBad = 2
+  FullCauses = 1
   AllowDetached = FALSE
   Emit = FALSE
   EmitMod = 1
